@@ -4,6 +4,7 @@ import Driver.Strpf
 import Driver.Scale
 import Driver.Sort
 import Driver.Stream
+import Driver.Tz
 open Driver
 
 def step (line : String) : String :=
@@ -16,6 +17,7 @@ def step (line : String) : String :=
     else if op.startsWith "c." then runScale op args
     else if op.startsWith "q." then runSort op args
     else if op == "m.run" then runStream args
+    else if op == "z.seq" then runTz args
     else "bad-op"
 
 partial def loop (h : IO.FS.Stream) (out : IO.FS.Stream) : IO Unit := do
